@@ -112,6 +112,8 @@ class Instance:
         w.string_sanitization_mode = bool(sanitize)
         if via_write and hasattr(self.obj, "write"):
             self.obj.write(w)
+        elif prefix == 1:
+            self.te.bridge.cls(self.cls_name).serialize(writer=w, data=self.obj)
         else:
             self.te.bridge.cls(self.cls_name).serialize(w, self.obj)
         return bytes(w.to_bytearray())[prefix:]
